@@ -292,6 +292,49 @@ def job_local_format(ctx, fmode):
                    bounds={"offsets": "std/dst -24:00..+23:59", "mode": fmode})
 
 
+ZONE_SEQ = [(330, 330, 0, 0), (-180, -120, 1, 1), (0, 60, 1, 0), (-30, 30, 1, 1), (765, 825, 1, 1)]
+
+
+def _zone_sequence(M):
+    """from-epoch / to_local under several system zone configurations, one after the other in one process"""
+    bad = []
+    data = M.data
+    for std, dst, daylight, isdst in ZONE_SEQ + ZONE_SEQ[::-1]:
+        M.timezone.time = FakeTime(std, dst, daylight, isdst)
+        want = dst if (isdst == 1 and daylight) else std
+        for n in (0, 86399, -1, 1234567):
+            r = data.get_timepoint_from_seconds_since_unix_epoch(n, utc=False)
+            tz = r._time_zone
+            if 60 * tz._hours + tz._minutes != want or C.py_instant("gregorian", r) != C.py_instant(
+                    "gregorian", data.TimePoint(year=1970)) + n:
+                bad.append("system offset %+d min: from_epoch(%d) = %s" % (want, n, r))
+        p = data.TimePoint(year=2000, month_of_year=6, day_of_month=15, hour_of_day=12).to_local_time_zone()
+        if 60 * p._time_zone._hours + p._time_zone._minutes != want:
+            bad.append("system offset %+d min: to_local_time_zone() = %s" % (want, p))
+    return bad
+
+
+def job_zone_sequence(ctx):
+    """concrete supplement: no state is carried between system-zone configurations"""
+    from symx.harness import new_result
+    import types
+    res = new_result("zone_sequence[concrete]")
+    M = types.SimpleNamespace(data=ctx.data, timezone=ctx.timezone)
+    import time as _t
+    try:
+        bad = _zone_sequence(M)
+    finally:
+        ctx.timezone.time = _t
+    res["obligations"] = res["paths"] = res["nontrivial_paths"] = 2 * len(ZONE_SEQ)
+    res["discharged"] = res["trivially"] = res["obligations"] - min(len(bad), res["obligations"])
+    if bad:
+        res["candidates"].append({"label": "local-zone results follow the current system zone", "how": "concrete",
+                                  "case": {"check": "zone_sequence", "mode": "gregorian"}})
+    res["scenarios"]["zone sequence"] = {"configs": ZONE_SEQ}
+    res["notes"].append("concrete sequence; not a solver verdict")
+    return res
+
+
 # ---------------------------------------------------------------------------
 def replay(case, M):
     data = M.data
@@ -321,6 +364,9 @@ def _pair_ok(h, m, total):
 
 def _replay(case, M, data, mode):
     k = case["check"]
+    if k == "zone_sequence":
+        bad = _zone_sequence(M)
+        return bool(bad), "; ".join(bad[:3]) or "ok"
     if k in ("local_zone", "to_local", "local_format") or (k == "from_epoch" and not case["utc"]):
         M.timezone.time = FakeTime(case["std"], case["dst"], case["daylight"], case["isdst"])
     if k == "local_zone":
@@ -363,7 +409,7 @@ def _replay(case, M, data, mode):
 
 def jobs(tier):
     th = tier == "thorough"
-    J = [("job_local_zone", {})]
+    J = [("job_local_zone", {}), ("job_zone_sequence", {})]
     for fm in ("normal", "extended", "reduced"):
         J.append(("job_local_format", dict(fmode=fm)))
     for rep in (C.REPS if th else ["ord"]):
@@ -411,6 +457,6 @@ INFO = {
 ],
     "assumptions": ["stub: time.timezone/altzone/daylight/localtime().tm_isdst return arbitrary values of their documented types within the stated ranges"],
 }
-REQUIRED_SCENARIOS = {"all": ["local offset text:normal", "local offset text:extended", "local offset text:reduced",
+REQUIRED_SCENARIOS = {"all": ["zone sequence", "local offset text:normal", "local offset text:extended", "local offset text:reduced",
                               "text for zero offset", "reduced with minutes", "dst in effect", "negative offset below one hour", "negative offset with minutes",
                               "zero offset", "before 1970", "after 1970", "negative n"]}
